@@ -171,10 +171,12 @@ PROPS = {
         rule=("rapid scenarios: 1..4 messages with lengths from {1..40, 512, 1023..1025, 2047..2049, 3072, 4095..4097, 8192, 1..5000}, optional arbitrary frame sizes, segmentation (per frame / single segment / up to 8 arbitrary cuts), up to 4 idle periods, 1..4 caller buffer sizes from {1,2,512,1024,4096,8192,random}. "
               "Non-trivial: some frame split across segments, or frames sharing a segment, or an idle period inside a frame, or a message length that is a multiple of 1024 or of the caller buffer. Distinct by scenario."),
         assumptions=["the peer sends well-formed frames of 0..1024 plaintext bytes and stays connected"],
-        essential_classes=["split-frame", "coalesced", "timeout-inside-frame", "len-multiple-of-1024", "len-multiple-of-buffer", "multi-frame-message", "regress", "empty-frame", "ciphertext-multiple-of-4096"],
+        essential_classes=["split-frame", "coalesced", "timeout-inside-frame", "len-multiple-of-1024", "len-multiple-of-buffer", "multi-frame-message", "regress", "empty-frame", "ciphertext-multiple-of-4096", "duplex"],
         jobs=[
             dict(test="TestC07Regress", kind="plain"),
             dict(test="TestC07Splits", kind="plain", shards={Q: 4, T: 16}),
+            dict(test="TestC07Duplex", kind="plain", shards={Q: 2, T: 8}),
+            dict(test="TestC07Duplex", kind="plain", shards=2, race=True, tiers=[T], env={"VERIF_C07_REPS": {T: 5}}),
             dict(test="TestC07Prop", kind="rapid", checks={Q: 1500, T: 50000}, shards=12),
         ],
     ),
@@ -254,7 +256,7 @@ PROPS = {
         level_note="Trusted: refctl's X25519/HKDF/Ed25519 usage; the observation that session.Decrypter() is non-nil exactly when an encrypted session is installed. Handler panics are counted (C13 judges them). The wire-level consequence (ciphertext under attacker-derived keys is not served) is exercised by C01.",
         rule=("rapid histories of 1..10 messages over 29 message kinds, random key seeds, 0..3 stored controllers, 1..2 connections, state-biased generator. Non-trivial: at least one finish variant sent after an accepted start. Distinct by (seed, stored, history)."),
         assumptions=["the adversary owns no long-term secret key of a stored controller"],
-        essential_classes=["finish-genuine:verified/stored=1", "finish-wrong-key/stored=1", "finish-accessory-name/stored=0", "finish-seal-zero-key(no-exchange)/stored=1", "finish-replayed/stored=2", "start-keylen-31", "regress", "replay-whole-exchange/stored=1", "finish-genuine-late(after-ended-exchange)/stored=1", "finish-retired-key/stored=1", "rekey-stored/stored=2"],
+        essential_classes=["finish-genuine:verified/stored=1", "finish-wrong-key/stored=1", "finish-accessory-name/stored=0", "finish-seal-zero-key(no-exchange)/stored=1", "finish-replayed/stored=2", "start-keylen-31", "regress", "replay-whole-exchange/stored=1", "finish-genuine-late(after-ended-exchange)/stored=1", "finish-retired-key/stored=1", "rekey-stored/stored=2", "burst>=10-failed-exchanges"],
         jobs=[
             dict(test="TestC03Regress", kind="plain"),
             dict(test="TestC03Prop", kind="rapid", checks={Q: 1000, T: 30000}, shards=16),
@@ -269,7 +271,7 @@ PROPS = {
         rule=("rapid cases: state from {fresh, setup-after-M2, setup-after-M4, setup-completed, verify-after-M2, verified, verified+setup-after-M2} x 1..3 hostile requests from 10 generator families. "
               "Non-trivial: hostile request delivered in a non-initial protocol state. Distinct by (state, seed, requests)."),
         assumptions=["requests reach the handlers through net/http (which bounds header sizes and recovers nothing for us at handler level)"],
-        essential_classes=["state:setup-after-M4", "state:verify-after-M2", "state:verified", "kind:tlv:short-encrypted", "kind:tlv:wrong-tag", "kind:tlv:sealed-garbage", "kind:tlv:odd-ltpk", "kind:json", "kind:query", "endpoint:/pairings", "endpoint:/resource", "regress", "wire-state:verified", "wire-state:setup-after-M4", "wire-source-address-reuse", "kind:pairings-method-3-long-id"],
+        essential_classes=["state:setup-after-M4", "state:verify-after-M2", "state:verified", "kind:tlv:short-encrypted", "kind:tlv:wrong-tag", "kind:tlv:sealed-garbage", "kind:tlv:odd-ltpk", "kind:json", "kind:query", "endpoint:/pairings", "endpoint:/resource", "regress", "wire-state:verified", "wire-state:setup-after-M4", "wire-source-address-reuse", "kind:pairings-method-3-long-id", "kind:pairings-method-3-known-id", "kind:verify-start-special-point", "kind:setup-verify-special-A"],
         jobs=[
             dict(test="TestC13Regress", kind="plain"),
             dict(test="TestC13Prop", kind="rapid", checks={Q: 150, T: 5000}, shards=12),
@@ -287,7 +289,7 @@ PROPS = {
         level_note="Trusted: refctl; the canary/keyword disclosure scan. /identify is unprotected by specification and not treated as protected. Reuse of a reset verified connection's source address by a new connection is generated (a race the harness provokes but does not own). For sealed requests the harness waits 120 ms of silence to conclude that nothing was served (a miss, never an alarm, if the accessory answered later).",
         rule=("rapid state machine, about 30 actions per history over 11 action kinds; protected requests drawn from 12 request shapes. Non-trivial: at least one attacker request to a protected endpoint issued while the legitimate controller is verified on another connection. Distinct by history."),
         assumptions=["the attacker knows neither the setup code nor a paired long-term secret key"],
-        essential_classes=["/accessories/plaintext", "/characteristics:get/plaintext", "/characteristics:put/plaintext", "/characteristics:subscribe/plaintext", "/pairings:add/plaintext", "/pairings:remove/plaintext", "/resource/plaintext", "legit-served", "app-change", "pair-verify-forged-finish", "pair-setup-fragment", "replayed-sniffed-verify", "flood-during-legit-verify", "source-address-reuse"],
+        essential_classes=["/accessories/plaintext", "/characteristics:get/plaintext", "/characteristics:put/plaintext", "/characteristics:subscribe/plaintext", "/pairings:add/plaintext", "/pairings:remove/plaintext", "/resource/plaintext", "legit-served", "app-change", "pair-verify-forged-finish", "pair-setup-fragment", "replayed-sniffed-verify", "flood-during-legit-verify", "source-address-reuse", "ciphertext-after-many-failed-verifies"],
         jobs=[
             dict(test="TestC01Prop", kind="rapid", checks={Q: 8, T: 1200}, shards=16),
         ],
